@@ -19,6 +19,14 @@ MAX_INLINE_DEPTH = 6
 class CallMixin:
     # ------------------------------------------------------------------ call expression
     def ev_Call(self, node, st):
+        if isinstance(node.func, ast.Attribute) and node.func.attr == "pop" and not node.args and not node.keywords:
+            recv = self.ev(node.func.value, st)
+            if isinstance(recv, (list, SList)) and not (isinstance(recv, list) and not recv):
+                # L.pop(): value of the last element, L rebound to the shorter list
+                L = recv if isinstance(recv, SList) else self.as_slist(recv)
+                self.pending.append((L.n <= 0, "IndexError", None))
+                self.assign_target(node.func.value, SList(L.ety, L.n - 1, L.a), st)
+                return wrap(L.ety, L.a[L.n - 1])
         fn = self.ev(node.func, st)
         args = []
         for a in node.args:
@@ -232,7 +240,10 @@ class CallMixin:
                 self.check_frame(st, k)
         cx_post = Ctx(self, st, old)
         result = fresh(con.returns, "ret_" + con.target.split(".")[-1]) if con.returns is not None else None
-        if result is not None:
+        if result is not None and "pure_result" in con.ghost:
+            # the result is a term over ghost functions of the arguments (no fresh symbol: usable under binders)
+            result = con.ghost["pure_result"](cx_post, **vals)
+        elif result is not None:
             st.pc = st.pc + tuple(type_constraints(result))
         for r in con.raises:
             if r.when is None:
@@ -312,6 +323,7 @@ class CallMixin:
         self.loop_var_types = con.ghost.get("loop_var_types", {})
         self.stmt_asserts = con.ghost.get("asserts", {})
         self.str_shape = con.ghost.get("str_shape")
+        self.net_cover = bool(con.ghost.get("net_cover"))
         from .engine import Vars as _V
         _V.types = self.loop_var_types
         self.call_depth = 0
